@@ -48,6 +48,17 @@ func scenario(name string, K, P int, sizes []int, pb int) vx.Scenario {
 // a point the explorer picks) but still reads what it is sent, as a half-closing client does.
 var hangUp = map[string]bool{}
 
+// burst: the agent is away while the clients arrive; its first poll only starts when all of them are waiting
+var burst = map[string]bool{}
+
+func scenarioB(name string, K, P int, sizes []int) vx.Scenario {
+	burst[name] = true
+	sc := scenarioC(name, K, P, sizes, 0, false)
+	sc.Single = true
+	sc.MaxSteps = 400000
+	return sc
+}
+
 func scenarioH(name string, K, P int, sizes []int, pb int) vx.Scenario {
 	hangUp[name] = true
 	return scenarioC(name, K, P, sizes, pb, false)
@@ -108,6 +119,9 @@ func scenarioC(name string, K, P int, sizes []int, pb int, cancelFirst bool) vx.
 				j := j
 				s.Thread(fmt.Sprintf("poller%d", j), func() {
 					vh.Until("handler", unsafe.Pointer(w), func() bool { return w.handler != nil })
+					if burst[name] {
+						vs.Quiesce()
+					}
 					first := true
 					for {
 						vs.Touch(unsafe.Pointer(w))
@@ -169,7 +183,7 @@ func worker(w *world, id string) {
 	fmt.Sscanf(t, "tok%d", &n)
 	payload := "echo:" + req.URL.Path + ":" + string(body)
 	var resp bytes.Buffer
-	fmt.Fprintf(&resp, "HTTP/1.1 %d Status\r\nX-Tok: %s\r\nX-Path: %s\r\nTrailer: X-Tr\r\nTransfer-Encoding: chunked\r\n\r\n", 200+n, t, req.URL.RequestURI())
+	fmt.Fprintf(&resp, "HTTP/1.1 %d Status\r\nX-Tok: %s\r\nX-Path: %s\r\nTrailer: X-Tr\r\nTransfer-Encoding: chunked\r\n\r\n", 200+n%4, t, req.URL.RequestURI())
 	if len(payload) > 0 {
 		fmt.Fprintf(&resp, "%x\r\n%s\r\n", len(payload), payload)
 	}
@@ -177,7 +191,7 @@ func worker(w *world, id string) {
 	// and an undeclared one
 	if n%2 == 1 {
 		resp.Reset()
-		fmt.Fprintf(&resp, "HTTP/1.1 %d Status\r\nX-Tok: %s\r\nX-Path: %s\r\nTransfer-Encoding: chunked\r\n\r\n", 200+n, t, req.URL.RequestURI())
+		fmt.Fprintf(&resp, "HTTP/1.1 %d Status\r\nX-Tok: %s\r\nX-Path: %s\r\nTransfer-Encoding: chunked\r\n\r\n", 200+n%4, t, req.URL.RequestURI())
 		if len(payload) > 0 {
 			fmt.Fprintf(&resp, "%x\r\n%s\r\n", len(payload), payload)
 		}
@@ -219,8 +233,8 @@ func judge(w *world, r *vs.Result, recs []*vh.Rec, K int, sizes []int, cancelFir
 			continue // the client that gave up may or may not have got its answer in time
 		}
 		want := "echo:/" + t + ":" + bodyFor(i, sizes[i%len(sizes)])
-		if rec.Code != 200+i {
-			x.Violations = append(x.Violations, fmt.Sprintf("MIXUP: client %d got status %d, its own response has %d", i, rec.Code, 200+i))
+		if rec.Code != 200+i%4 {
+			x.Violations = append(x.Violations, fmt.Sprintf("MIXUP: client %d got status %d, its own response has %d", i, rec.Code, 200+i%4))
 		}
 		if got := rec.Snapshot.Get("X-Tok"); got != t {
 			x.Violations = append(x.Violations, fmt.Sprintf("MIXUP: client %d got header X-Tok=%q, want %q", i, got, t))
@@ -301,6 +315,9 @@ func main() {
 					scenarioC("K3P1-first-client-cancels", 3, 1, []int{10, 0, 10}, 0, true),
 					scenarioH("K1P2-first-poller-hangs-up", 1, 2, []int{10}, 3),
 					scenarioH("K2P2-first-poller-hangs-up", 2, 2, []int{10, 0}, 1),
+					scenarioB("K101P1-burst-while-the-agent-is-away", 101, 1, []int{3, 0}),
+					scenarioB("K230P2-burst-while-the-agent-is-away", 230, 2, []int{0}),
+					scenarioB("K1001P1-burst-while-the-agent-is-away", 1001, 1, []int{0}),
 				}
 			}
 			return []vx.Scenario{
@@ -308,6 +325,8 @@ func main() {
 				scenario("K2P2", 2, 2, []int{1, 0}, 1),
 				scenarioC("K2P1-first-client-cancels", 2, 1, []int{10, 10}, 2, true),
 				scenarioH("K1P2-first-poller-hangs-up", 1, 2, []int{10}, 2),
+				scenarioB("K101P1-burst-while-the-agent-is-away", 101, 1, []int{3, 0}),
+				scenarioB("K230P2-burst-while-the-agent-is-away", 230, 2, []int{0}),
 			}
 		},
 	})
